@@ -75,6 +75,10 @@ def expr(slope, icpt):
     if key not in m['exprs']:
         if key[0] == 0:
             e = m["Expr"](repr(float(F(icpt))))
+        elif key == (1, 0):
+            e = m["Expr"]('t')              # the bare time variable: evaluation returns the time array itself
+        elif key[1] == 0:
+            e = m["Expr"]("%r*t" % float(F(slope)))
         else:
             e = m["Expr"]("%r*t + %r" % (float(F(slope)), float(F(icpt))))
         m['exprs'][key] = e
@@ -235,7 +239,7 @@ def bps(r):
         d, b = bps(r[2])
         n = max(int(r[3]), 0)
         out = set()
-        for i in range(min(n, 6)):
+        for i in range(min(n, 16)):
             out |= {i * d + x for x in b}
         out.add(d * n)
         return d * n, out
@@ -334,8 +338,10 @@ def gen_leaf(rng, ch, dur, p_const=0.35, vals=VALS):
     if dur == 0 or x < p_const:
         return ['const', dur, rng.choice(vals), ch]
     if x < p_const + 0.2:
+        if rng.random() < 0.3:
+            return ['func', flag(rng), F(1), F(0), dur, ch]        # exactly `t`
         slope = rng.choice([F(1), F(-1), F(1, 2), F(2), F(0), F(-1, 2)])
-        return ['func', flag(rng), slope, rng.choice(vals), dur, ch]
+        return ['func', flag(rng), slope, rng.choice(vals + [F(0), F(0)]), dur, ch]
     if rng.random() < 0.25:
         # tables over a two-valued alphabet: constant detection and de-duplication trigger often
         two = rng.sample(vals, 2)
@@ -425,6 +431,20 @@ def const_tree(rng, chans, dur, vals):
     return ['multi', flag(rng)] + [['const', dur, vals[c], c] for c in order]
 
 
+def ramps(rng, chans, dur):
+    """function waveforms (mostly the bare `t`) on every channel: the operand FunctorWaveform / ArithmeticWaveform
+    modify in place"""
+    def one(c):
+        if rng.random() < 0.7:
+            return ['func', flag(rng), F(1), F(0), dur, c]
+        return ['func', flag(rng), rng.choice([F(1), F(2), F(-1)]), rng.choice([F(0), F(1)]), dur, c]
+    chans = list(chans)
+    if len(chans) == 1:
+        return one(chans[0])
+    rng.shuffle(chans)
+    return ['multi', flag(rng)] + [one(c) for c in chans]
+
+
 def gen(rng, depth, chans, dur, p_const=0.35, force=None):
     chans = sorted(chans)
     n = len(chans)
@@ -489,12 +509,14 @@ def gen(rng, depth, chans, dur, p_const=0.35, force=None):
             if L and R:
                 break
         pc = 0.8 if rng.random() < 0.35 else p_const
-        return ['arith', flag(rng), gen(rng, d1, L, dur, pc), rng.choice(['plus', 'minus']), gen(rng, d1, R, dur, pc)]
+        lhs = ramps(rng, L, dur) if rng.random() < 0.2 else gen(rng, d1, L, dur, pc)
+        return ['arith', flag(rng), lhs, rng.choice(['plus', 'minus']), gen(rng, d1, R, dur, pc)]
     if k == 'functor':
         fs = [[c, rng.choice(['neg', 'pos', 'abs'])] for c in chans]
         rng.shuffle(fs)
         pc = 0.8 if rng.random() < 0.35 else p_const
-        return ['functor', flag(rng), gen(rng, d1, chans, dur, pc), fs]
+        inner = ramps(rng, chans, dur) if rng.random() < 0.2 else gen(rng, d1, chans, dur, pc)
+        return ['functor', flag(rng), inner, fs]
     if k == 'reversed':
         pc = 0.8 if rng.random() < 0.2 else p_const
         return ['reversed', rng.randrange(3), gen(rng, d1, chans, dur, pc)]
@@ -637,7 +659,8 @@ class Group:
         self.violated = False
 
     def replay(self, **kw):
-        d = {'kind': 'group', 'recipe': self.line, 'subseed': self.subseed, 'label': self.label}
+        d = {'kind': 'decimal' if self.label.startswith('decimal') or self.label.endswith('decimal') else 'group',
+             'recipe': self.line, 'subseed': self.subseed, 'label': self.label}
         d.update(kw)
         return d
 
@@ -833,6 +856,11 @@ def history(g, r, base, grid, rng, steps=9):
             log.append('%s ch=%s raised %s' % (op, c, type(e).__name__))
             g.violation('history: call %d (%s) raised %s: %s' % (step, op, type(e).__name__, str(e)[:120]),
                         history=log, grid=[str(x) for x in grid])
+            return
+        if [val(x) for x in t] != list(times):
+            g.violation('history: call %d (%s, channel %r) modified the caller\'s sample time array: %s instead of %s'
+                        % (step, op, c, _fmt([val(x) for x in t]), _fmt(list(times))), history=log,
+                        grid=[str(x) for x in grid])
             return
         got = [val(x) for x in res]
         want = [ref[c][x] for x in times]
@@ -1144,6 +1172,204 @@ def shape_of(w):
 
 
 # ---------------------------------------------------------------------------------------------
+# the decimal stream: durations that are no dyadic rationals (short decimals, thirds)
+# ---------------------------------------------------------------------------------------------
+#
+# Durations are exact rationals (TimeType) but sample times are floats, and the pieces of a sequence / repetition are
+# found by comparing floats with float(boundary).  The Lean model compares exact rationals, so it is consulted with a
+# tolerance and only at times that are not within 1e-9 of a boundary.  At the boundaries themselves (float(k*d),
+# float(duration) and their float neighbours) the implementation is judged relationally: every sample is finite
+# (judge-total) and a repetition samples exactly like the plain SequenceWaveform of as many copies (judge-same; both
+# accumulate exact TimeType sums, so their float boundaries are bit-identical).
+
+DEC_DURS = [F(1, 10), F(3, 10), F(7, 10), F(1, 3), F(2, 3), F(1, 5), F(9, 100), F(1, 7), F(11, 10)]
+TOL = F(1, 2 ** 30)
+
+
+def gen_dec_body(rng, ch, d):
+    """a waveform of the non-dyadic duration `d` that does not fold to a constant"""
+    k = rng.random()
+    if k < 0.45 and (d * 1000).denominator == 1:
+        # short decimal: a table (its last time is the float repr of d)
+        v0, v1 = rng.sample(VALS, 2)
+        es = [[F(0), v0, 'hold'], [d, v1, rng.choice(['linear', 'linear', 'hold', 'jump'])]]
+        if rng.random() < 0.4 and (d * 500).denominator == 1:
+            es.insert(1, [d / 2, rng.choice(VALS), rng.choice(['linear', 'hold', 'jump'])])
+        return ['table', 0, ch, es]
+    if k < 0.8:
+        return ['func', 0, rng.choice([F(1), F(-2), F(1, 2)]), rng.choice(VALS), d, ch]
+    h = d / 2
+    return ['seq', 0, ['func', 0, F(1), F(0), h, ch], ['const', d - h, rng.choice(VALS), ch]]
+
+
+def gen_decimal(rng):
+    d = rng.choice(DEC_DURS)
+    n = rng.choice([2, 3, 5, 6, 7, 9, 10, 10, 11, 12])
+    chans = rng.sample(POOL, rng.choice([1, 1, 2]))
+    if len(chans) == 1:
+        body = gen_dec_body(rng, chans[0], d)
+    else:
+        body = ['multi', flag(rng)] + [gen_dec_body(rng, c, d) for c in chans]
+    r = ['rep', flag(rng), body, n]
+    k = rng.random()
+    if k < 0.15:
+        r = ['reversed', rng.randrange(3), r]
+    elif k < 0.3:
+        r = ['functor', flag(rng), r, [[c, rng.choice(['neg', 'abs', 'pos'])] for c in chans]]
+    elif k < 0.45:
+        r = ['seq', flag(rng), r, gen_dec_body(rng, chans[0], rng.choice(DEC_DURS))] if len(chans) == 1 else r
+    elif k < 0.55:
+        r = ['rep', flag(rng), r, rng.choice([2, 3])]
+    return r
+
+
+def float_grid(r, rng, cap=70):
+    """float sample times: float(b) for every exact breakpoint b, its float neighbours, mid points, float(duration)"""
+    np = imp()['np']
+    d, b = bps(r)
+    df = float(d)
+    pts = set()
+    bs = sorted(x for x in b if 0 <= x <= d)
+    if len(bs) > 24:
+        keep = bs[:8] + bs[-8:] + rng.sample(bs[8:-8], 8)
+        bs = sorted(set(keep))
+    for x in bs:
+        f = float(x)
+        for y in (f, float(np.nextafter(f, -1.0)), float(np.nextafter(f, 1e9))):
+            if 0.0 <= y <= df:
+                pts.add(y)
+    for x, y in zip(bs, bs[1:]):
+        pts.add(float((x + y) / 2))
+    pts |= {0.0, df}
+    pts = sorted(pts)
+    if len(pts) > cap:
+        keep = {0.0, df, pts[-2], pts[1]}
+        rest = [p for p in pts if p not in keep]
+        rng.shuffle(rest)
+        pts = sorted(keep | set(rest[:cap - len(keep)]))
+    return pts, sorted(b)
+
+
+def replace_reps(r):
+    """the same recipe with every repetition written as the plain sequence of its copies"""
+    if not (isinstance(r, list) and r and isinstance(r[0], str)):
+        return r
+    if r[0] == 'rep' and isinstance(r[3], int) and r[3] >= 1:
+        body = replace_reps(r[2])
+        return ['seq', 0] + [body] * r[3]
+    if r[0] in ('table', 'const', 'func', 'mapping'):
+        return r
+    return [r[0]] + [replace_reps(c) if isinstance(c, list) and c and isinstance(c[0], str) and c[0] in KIND_SET else c
+                     for c in r[1:]]
+
+
+KIND_SET = {'table', 'const', 'func', 'seq', 'multi', 'rep', 'trans', 'arith', 'functor', 'reversed', 'subset', 'mapping'}
+
+
+def observe_floats(r, times):
+    np = imp()['np']
+    try:
+        w = build(r)
+        chans = sorted(w.defined_channels)
+        dur = F(int(w.duration.numerator), int(w.duration.denominator))
+        t = np.array(times, dtype=float)
+        samples = {}
+        for c in chans:
+            fresh = build(r)
+            samples[c] = [val(x) for x in fresh.unsafe_sample(c, t.copy())]
+        sampled2 = {c: [val(x) for x in build(r).get_sampled(c, t.copy())] for c in chans}
+        with_out = {}
+        for c in chans:
+            out = np.full(len(times), 12345.0)
+            build(r).unsafe_sample(c, t.copy(), output_array=out)
+            with_out[c] = [val(x) for x in out]
+        return {'chans': chans, 'dur': dur, 'samples': samples, 'get_sampled': sampled2, 'with_out': with_out}
+    except Exception as e:  # noqa
+        return {'error': core.classify_exception(e), 'phase': 'observe', 'msg': '%s: %s' % (type(e).__name__, str(e)[:200])}
+
+
+def check_decimal(B, ctx, recipe, subseed, label):
+    rng = random.Random(subseed)
+    g = Group(ctx, recipe, subseed, label)
+    g.results = []
+    times, bounds = float_grid(recipe, rng)
+    exact = [F(t) for t in times]
+    impl = observe_floats(recipe, times)
+    line = sx(['c08', 'case', recipe, exact])
+    ctx.case(line, nontrivial='error' not in impl)
+    ctx.count('cases:decimal')
+    if 'error' in impl:
+        g.violation('not-total: building / sampling a waveform with non-dyadic durations raised %s (%s)'
+                    % (impl['error'], impl['msg']), case=line[:3000], times=[repr(t) for t in times])
+        return g
+    tinfo = dict(times=[repr(t) for t in times])
+    n = len(times)
+
+    def bad(a, b=None):
+        """the sample times at which a is not finite / differs from b (for the classification of known findings)"""
+        fa = flat(a, impl['chans'])
+        fb = flat(b, impl['chans']) if b is not None else None
+        return sorted({times[i % n] for i in range(len(fa)) if (fa[i] is None if fb is None else fa[i] != fb[i])})
+    # (a) total
+    judge(B, g, 'judge-total', [vals_sx(flat(impl['samples'], impl['chans']))],
+          'not-total: a sample in [0, duration] is not finite (decimal stream, unsafe_sample)', case=line[:3000],
+          bad_times=bad(impl['samples']), **tinfo)
+    judge(B, g, 'judge-same', [vals_sx(flat(impl['with_out'], impl['chans'])), vals_sx(flat(impl['samples'], impl['chans']))],
+          'history: the result depends on whether an output_array is supplied (decimal stream)', case=line[:3000],
+          bad_times=bad(impl['with_out'], impl['samples']), **tinfo)
+    judge(B, g, 'judge-same', [vals_sx(flat(impl['get_sampled'], impl['chans'])), vals_sx(flat(impl['samples'], impl['chans']))],
+          'constant: get_sampled differs from unsafe_sample (decimal stream)', case=line[:3000],
+          bad_times=bad(impl['get_sampled'], impl['samples']), **tinfo)
+    # (b) a repetition samples like the sequence of its copies
+    unrolled = replace_reps(recipe)
+    ref = observe_floats(unrolled, times)
+    if 'error' not in ref and ref['chans'] == impl['chans']:
+        ctx.count('decimal:rep-vs-seq')
+        judge(B, g, 'judge-same', [vals_sx(flat(impl['samples'], impl['chans'])), vals_sx(flat(ref['samples'], ref['chans']))],
+              'pointwise: a RepetitionWaveform samples differently from the SequenceWaveform of its copies '
+              '(piece boundaries at float(k*duration))', case=line[:3000], other=sx(unrolled)[:3000],
+              bad_times=bad(impl['samples'], ref['samples']), **tinfo)
+    # (c) the exact model, with a tolerance, away from the boundaries
+    safe = [all(abs(e - b) > F(1, 10 ** 9) for b in bounds) for e in exact]
+    if end_excess(recipe):          # open finding PF-C08e: the end points are not compared
+        safe = [ok and not is_end_time(recipe, t) for ok, t in zip(safe, times)]
+
+    def h(ans):
+        model = parse_model(ans)
+        if 'error' in model:
+            g.diffs.append(('error', line, _short(impl), model))
+            return
+        if model['chans'] != impl['chans'] or model['dur'] != impl['dur']:
+            g.diffs.append(('chans/dur', line, _short(impl), _short(model)))
+            return
+        for c in impl['chans']:
+            for i, ok in enumerate(safe):
+                if not ok:
+                    continue
+                a, m = impl['samples'][c][i], model['samples'][c][i]
+                ctx.count('decimal:model-compared')
+                if (a is None) != (m is None) or (a is not None and abs(a - m) > TOL * max(1, abs(m))):
+                    g.diffs.append(('samples(tolerance)', line, 'ch %s t=%r impl %s' % (c, times[i], a), 'model %s' % m))
+                    return
+    B.ask(line, h)
+    return g
+
+
+def run_decimal(ctx, items, label='decimal', chunk=300):
+    drifted = []
+    for i in range(0, len(items), chunk):
+        B = Batch()
+        groups = [check_decimal(B, ctx, r, sub, label) for r, sub in items[i:i + chunk]]
+        B.run()
+        for g in groups:
+            if g.diffs and not g.violated:
+                for what, line, impl, model in g.diffs[:2]:
+                    ctx.drift('C08 %s (%s)' % (what, label), line[:3000], impl, model)
+                drifted.append(g)
+    return drifted
+
+
+# ---------------------------------------------------------------------------------------------
 # known open findings: class predicates
 # ---------------------------------------------------------------------------------------------
 
@@ -1168,7 +1394,40 @@ def pf26_class(g, what, kw):
     return g.recipe[0] == 'table' and hold_triple_at_end(g.recipe[3])
 
 
-KNOWN_CLASSES = {'PF-C08c': pf26_class}
+def _has(r, kind):
+    return isinstance(r, list) and bool(r) and (r[0] == kind or any(_has(c, kind) for c in r[1:] if isinstance(c, list)))
+
+
+def is_end_time(r, t):
+    """t is sampled at the very end of the waveform (under time reversal: float(duration) - t is)"""
+    d = float(bps(r)[0])
+    return t == d or (_has(r, 'reversed') and d - t == d)
+
+
+def end_excess(r):
+    """PF-C08e class: some sequence / repetition hands its last piece a local end time float(end) - float(start) that
+    is larger than float(duration of the piece) (exact rational boundaries rounded to floats, i.e. independent of how
+    the implementation accumulates them)"""
+    if not (isinstance(r, list) and r and isinstance(r[0], str) and r[0] in KIND_SET):
+        return False
+    if r[0] == 'rep' and isinstance(r[3], int) and r[3] >= 1:
+        d, _ = bps(r[2])
+        if float(d * r[3]) - float(d * (r[3] - 1)) > float(d):
+            return True
+    if r[0] == 'seq' and len(r) > 2:
+        durs = [bps(c)[0] for c in r[2:]]
+        if float(sum(durs)) - float(sum(durs[:-1])) > float(durs[-1]):
+            return True
+    return any(end_excess(c) for c in r[1:] if isinstance(c, list))
+
+
+def pfC08e_class(g, what, kw):
+    if not kw.get('bad_times'):
+        return False
+    return end_excess(g.recipe) and all(is_end_time(g.recipe, t) for t in kw['bad_times'])
+
+
+KNOWN_CLASSES = {'PF-C08c': pf26_class, 'PF-C08e': pfC08e_class}
 
 
 # ---------------------------------------------------------------------------------------------
@@ -1343,6 +1602,10 @@ def witnesses_known(ctx):
                 ctx.known_finding(kf['finding'], kf.get('what', ''))
             else:
                 ctx.count('known-not-reproduced:' + kf['finding'])
+        elif 'recipe' in w and w.get('kind') == 'decimal':
+            run_decimal(ctx, [(recipe_of_line(w['recipe']), w.get('subseed', 0))], 'decimal-known-' + kf['finding'])
+            if not any(l.startswith('KNOWN-FINDING: property=C08 %s' % kf['finding']) for l in ctx.known_printed):
+                ctx.count('known-not-reproduced:' + kf['finding'])
         elif 'recipe' in w:
             B = Batch()
             g = check_group(B, ctx, recipe_of_line(w['recipe']), w.get('subseed', 0), 'known-' + kf['finding'], light=True)
@@ -1404,6 +1667,10 @@ def run(ctx: core.Ctx):
         drifted += run_family(ctx, trees, 'tree')
     else:
         drifted += run_parallel(ctx, trees, 'tree')
+    # decimal stream (non-dyadic durations, float boundaries)
+    rng = ctx.fork('decimal')
+    dec = [(gen_decimal(rng), rng.getrandbits(32)) for _ in range(ctx.n(250, 5000))]
+    run_decimal(ctx, dec)
     # malformed stream
     rng = ctx.fork('malformed')
     bad = [(r, rng.getrandbits(32)) for r in malformed(rng, ctx.n(150, 2000))]
@@ -1480,6 +1747,10 @@ def replay(ctx: core.Ctx, rec: dict, from_corpus: bool = False) -> bool:
         B.run()
         drifted = finish_groups(ctx, groups)
         if drifted and not from_corpus:
+            ctx.finish()
+    elif rec.get('kind') == 'decimal':
+        run_decimal(ctx, [(recipe_of_line(rec['recipe']), rec.get('subseed', 0))], rec.get('label', 'replay'))
+        if ctx.drifts and not from_corpus:
             ctx.finish()
     else:
         raise core.MachineryError('unknown replay record kind %r' % rec.get('kind'))
